@@ -264,6 +264,13 @@ func runC06(rc *fw.RunCtx) {
 		}
 	} else {
 		ctx, cancel = context.WithCancel(context.Background())
+		if f.Chance(1, 4) {
+			// aimed at a site (inside a primitive, at a task start, at the
+			// watcher's fire point); the step-based cancel stays as a fallback
+			// in case the site is never reached
+			armSiteFault(s, f, "cancel", func() { rc.Hit("fault_cancel_at_site"); cancel() })
+			cancelStep = 200 + f.Intn(400)
+		}
 		s.AtStep(cancelStep, "cancel", func() {
 			rc.Hit("fault_cancel")
 			cancel()
